@@ -78,10 +78,35 @@ def load(modname):
             return SymPattern(pattern, flags) if isinstance(pattern, str) else real_compile(pattern, flags)
 
         _re.compile = _compile
+    import builtins
+
+    real_import = builtins.__import__
+    if full not in sys.modules:
+        # module-level constants of the module under test (2 * np.pi, math.sqrt(2 * math.log(2)), ...) must be symbolic like
+        # the same expressions inside functions: while scippneutron modules are imported, `numpy` and `math` resolve to the
+        # symbolic stand-ins FOR THOSE MODULES ONLY, and atoms created meanwhile persist across universe resets
+        from symsc.mathshim import SymMath
+        from symsc.npshim import NPShim
+
+        from . import terms as _T
+
+        proxies = {'numpy': NPShim(), 'math': SymMath()}
+
+        def _import(name, globals=None, locals=None, fromlist=(), level=0):
+            if level == 0 and name in proxies and globals is not None and str(globals.get('__name__', '')).startswith('scippneutron'):
+                return proxies[name]
+            return real_import(name, globals, locals, fromlist, level)
+
+        builtins.__import__ = _import
+        _T.begin_persistent()
     try:
         m = importlib.import_module(full)
     finally:
         _re.compile = real_compile
+        if builtins.__import__ is not real_import:
+            builtins.__import__ = real_import
+            from . import terms as _T
+            _T.end_persistent()
     return m
 
 
